@@ -30,6 +30,25 @@ CLAIMED = {
         note="Trusts rustc const evaluation and the Python reference arithmetic."),
 }
 
+_GATES_NOTE = "Assumes A1 (MIR faithful), A2 (std model) and that tables/gates.json lists the conjuncts of the cited specification; decides presence and reach of each check, not the arithmetic it performs."
+_TOT_NOTE = "Assumes A1, A2; tables/panic_sites.json (reviewed, documentation anchors re-checked on every run) and tables/site_inventory.json (frozen residue of index/length obligations that no rule discharges: only NEW undischarged obligations are reported)."
+
+def _g(pid, text, cat="other", eng="gates", tech="interprocedural dependence (taint with implicit flows) of the result on specified check facts in MIR", ref="DESIGN.md section 6", note=_GATES_NOTE):
+    CLAIMED[pid] = dict(engine=eng, technique=tech, category=cat, design_ref=ref, text=text, note=note)
+
+_g("C05", "Structural clauses only: encoders serialise the normaliser's output; strict decoders fail on wrong length; Option wrappers are Some only under the strict decoder's status. Round-trip identity and the modulus comparison are numeric and not decided.")
+_g("C06", "Decode-gate clause only: for the nine group decoders, the status depends on every rejection conjunct of the format's decoding rule; decode()/PublicKey::decode() are Some only under that status. Injectivity, representative-independence and the byte-to-group maps are not decided.")
+_g("C07", "Gate clause only: every check conjunct of the strict RFC 8032 acceptance predicate (length, strict R, strict S from the right byte range, Ed448 trailing byte unmasked, verification equation, variant flags dom/phflag passed as the RFC's constants) reaches the boolean result; signature bytes never enter a reducing decoder. Correctness of the equation and of signing are not decided.")
+_g("C08", "Gate clause only: ECDSA verify_hash depends on even length, zero padding of both halves, strict decoding and non-zero test of r and s, R not at infinity, final comparison; key decoders' range gates. Nonce derivation and the arithmetic are not decided.")
+_g("C09", "Gate clause only: Schnorr verify depends on exact length 48 (equality test), canonical s from its byte range, challenge comparison; ECDH key and status both depend on decoding and on the neutral test; key decoders. Key agreement arithmetic is not decided.")
+_g("C15", "Structural clauses: rejection gates of every FROST decoder, decode_list, sign, share verification and assembly, plus the reachable-panic discipline (totality rules incl. caller-establishes-precondition) over all public FROST functions. Interpolation algebra is not decided.", eng="gates+totality", tech="dependence of results on check facts + panic-site / length-obligation analysis over MIR", note=_GATES_NOTE + " " + _TOT_NOTE)
+_g("C16", "State-machine and gate clauses: in sign() the single store current_leaf = q+1 dominates ots_sign and every Some return, uses the entry value, is confined to the q < 2^h edge (2^h from the parameter set), nothing is written on the exhausted path, no other function writes the counter; verify() depends on exact size, q < 2^h, both type codes, root comparison. Winternitz/Merkle correctness is not decided.", eng="gates+lmsstate", tech="dominance / who-may-write rules on MIR + dependence on check facts")
+for _p, _t in (("C19", "Four clauses: explicit panics documented/impossible/reviewed (new ones reported, caller-establishes rule), index/range/copy-length/division obligations discharged by folding, intervals, loop ranges, dominating or callee-implied length guards (residue frozen, only new ones reported). Loop termination and statuses-are-masks are decided by other rules when available."),
+               ("C10", "Totality clause only ('never panic'): the C19 rules over the call trees of the *_vartime combinations and verify_helper_vartime. Equality with the constant-time result is numeric: not decided."),
+               ("C11", "Totality clause only ('return for every input scalar, without panicking'): the C19 rules over split_vartime / split_mu / split_theta / mul_divr_rounded / lagrange*. The split contract and termination are numeric: not decided.")):
+    CLAIMED[_p] = dict(engine="totality", technique="enumeration of panic edges in MIR with interval / guard / loop-range discharge and reviewed tables", category="other", design_ref="DESIGN.md section 5", text=_t, note=_TOT_NOTE)
+CLAIMED["C13"]["text"] += " Soundness gates: Some(..) only under strict r/R decoding, non-zero r and the point-equality check of the reconstructed signature; r never reduced."
+
 
 def main():
     props = [json.loads(l) for l in open(os.path.join(VERIF, "properties.jsonl"))]
@@ -63,6 +82,8 @@ def main():
             dict(name="mirfacts", path="mirfacts/", serves_properties=sorted(CLAIMED), kind_free_text="rustc_private driver dumping MIR, types, layouts and const-evaluated data as JSON"),
             dict(name="consttab", path="crrlverif/consttab.py", serves_properties=["C04", "C13"], kind_free_text="constant tables vs independent reference arithmetic"),
             dict(name="taint/ctflow", path="crrlverif/taint.py", serves_properties=["C02"], kind_free_text="interprocedural label analysis over MIR"),
+            dict(name="gates", path="crrlverif/gates.py", serves_properties=["C05", "C06", "C07", "C08", "C09", "C13", "C15", "C16"], kind_free_text="check facts that must reach results; LMS state machine"),
+            dict(name="totality", path="crrlverif/totality.py", serves_properties=["C10", "C11", "C15", "C19"], kind_free_text="panic edges, length/index obligations"),
         ],
         checks=checks,
         not_applicable=na,
